@@ -41,6 +41,10 @@ NA = {
  "C20": "model keychain not yet instantiated; everything else is libsecp256k1-zkp FFI",
 }
 
+# properties that have obligations in the plan for experiments but are NOT claimed (nothing finishes yet)
+EXPERIMENTAL = {"C15"}
+
+
 def main():
     m = {
         "version": 1,
@@ -49,13 +53,15 @@ def main():
                   "enable": "cfg(kani) is set by `cargo kani` itself; no source hook is required by the checks registered in this revision",
                   "baseline_off_cmd": "cd /repo && cargo test --workspace --no-fail-fast --offline",
                   "source_commits": [], "add_only": True},
-        "engines": [{"name": "kani", "path": "/verif/harness/vh", "serves_properties": sorted(plan.PLAN.keys()),
+        "engines": [{"name": "kani", "path": "/verif/harness/vh", "serves_properties": sorted(k for k in plan.PLAN.keys() if k not in EXPERIMENTAL),
                      "kind_free_text": "Kani 0.68 proof harnesses (CBMC 6.11 + CaDiCaL) over the real grin crates as path dependencies on /repo; bin/check -> lib/runner.py drives one cargo-kani query per obligation, extracts counterexamples from the CBMC trace and replays them natively"}],
         "checks": [],
         "notes": "see DESIGN.md; exit 2 of a check means inconclusive (timeout / OOM / harness does not compile / non-reproducing counterexample), never a violation",
         "not_applicable": [],
     }
     for pid in sorted(plan.PLAN.keys()):
+        if pid in EXPERIMENTAL:
+            continue
         text, note = TEXT[pid]
         m["checks"].append({
             "property_id": pid,
@@ -69,7 +75,7 @@ def main():
             "technique": "SMT/SAT-based bounded model checking of the compiled Rust (Kani -> CBMC -> CaDiCaL) with symbolic inputs; counterexamples replayed natively",
         })
     for pid in ["C%02d" % i for i in range(1, 21)]:
-        if pid not in plan.PLAN:
+        if pid not in plan.PLAN or pid in EXPERIMENTAL:
             m["not_applicable"].append({"property_id": pid, "reason": NA.get(pid, "not claimed")})
     json.dump(m, open(os.path.join(VERIF, "MANIFEST.json"), "w"), indent=1)
     print("checks:", [c["property_id"] for c in m["checks"]])
